@@ -30,6 +30,25 @@ theorem random_split_src_refuses (p : ℕ) (isField : Bool) (s : List Int) (t m 
   simp -iota only []
   rw [if_pos ⟨ht, hm⟩]
 
+/-- ★ dichotomy for the current source, for EVERY threshold and number of parties: `random_split` either refuses
+(exactly when `t ≠ 0` and the field has at most `m` elements, where a share would be the secret) or it is the model's
+`randomSplit`, to which the uniformity theorems of MpycV.C13 apply — there is no third behaviour -/
+theorem random_split_src_dichotomy (p : ℕ) [Fact p.Prime] (isField : Bool) (s : List Int) (t m : Int)
+    (stream : List Int) (hs : s ≠ []) (hlen : t.toNat * s.length ≤ stream.length)
+    (hrange : ∀ v ∈ stream.take (t.toNat * s.length), 0 ≤ v ∧ v < (p : Int)) :
+    (t ≠ 0 ∧ (p : Int) ≤ m ∧ ThreshaSrc.random_split p isField s t m stream = .error .valueError) ∨
+    ((t = 0 ∨ m < (p : Int)) ∧
+      ThreshaSrc.random_split p isField s t m stream = .ok (randomSplit (intModP p) s stream t.toNat m.toNat)) := by
+  by_cases h : t ≠ 0 ∧ (p : Int) ≤ m
+  · exact Or.inl ⟨h.1, h.2, random_split_src_refuses p isField s t m stream h.1 h.2⟩
+  · have hg : t = 0 ∨ m < (p : Int) := by
+      by_cases ht : t = 0
+      · exact Or.inl ht
+      · right
+        by_contra hm
+        exact h ⟨ht, not_lt.1 hm⟩
+    exact Or.inr ⟨hg, random_split_src_eq p isField s t m stream hs hg hlen hrange⟩
+
 /-- every share of the current source is `shareAt` of the model: the value of the secret's polynomial whose
 coefficients are the `t` stream values drawn for that secret -/
 theorem random_split_src_entry (p : ℕ) [Fact p.Prime] (isField : Bool) (s : List Int) (t : Int) (m : ℕ)
